@@ -878,9 +878,10 @@ pub fn payload_from_args<'a>(args: &'a [DltArg<'a>]) -> Vec<u8> {
         for arg in args {
             let persist_len_u16 = if arg.type_info & (DLT_TYPE_INFO_STRG | DLT_TYPE_INFO_RAWD) != 0
             {
-                arg.payload_raw.len() as u16
+                // strings and raw data always carry the 16 bit length, even when empty
+                Some(arg.payload_raw.len() as u16)
             } else {
-                0u16
+                None
             };
 
             let type_info = if big_endian {
@@ -889,7 +890,7 @@ pub fn payload_from_args<'a>(args: &'a [DltArg<'a>]) -> Vec<u8> {
                 arg.type_info.to_le_bytes()
             };
             payload.extend_from_slice(&type_info);
-            if persist_len_u16 > 0 {
+            if let Some(persist_len_u16) = persist_len_u16 {
                 payload.extend_from_slice(&if big_endian {
                     persist_len_u16.to_be_bytes()
                 } else {
